@@ -88,18 +88,38 @@ def rand_sel_list(rng, nested, maxw=3, star_ok=False):
     return out
 
 
-def rand_tree(rng, depth, nested=False, maxdepth=7):
+def sel_multiplicity(sel, mult):
+    """number of flattened selectors a rule with selector token list `sel` has under a parent with `mult` of them
+    (every & of a part stands for any parent: mult ** count)"""
+    total, amps, seen = 0, 0, False
+    for t in list(sel) + [',']:
+        if t == ',':
+            total += mult ** max(1, amps)
+            amps = 0
+        elif t == '&':
+            amps += 1
+    return total
+
+
+def rand_tree(rng, depth, nested=False, maxdepth=7, mult=1):
     body = []
     ndecl = rng.choice([0, 1, 1, 2, 3])
     nk = 0 if depth >= maxdepth else rng.choice([0, 0, 1, 1, 2, 3] if depth < 3 else [0, 0, 0, 1, 1])
-    sel = rand_sel_list(rng, nested, 3 if depth <= 2 else 1, star_ok=(nk == 0))
+    # the expansion is a product over the levels (and a power for several &): keep it below a few hundred selectors per rule
+    for _try in range(8):
+        sel = rand_sel_list(rng, nested, 3 if depth <= 2 else 1, star_ok=(nk == 0))
+        if sel_multiplicity(sel, mult) <= 250:
+            break
+    else:
+        sel = ['.z%d' % depth]
+    mult = sel_multiplicity(sel, mult)
     items = ['d'] * ndecl + ['r'] * nk
     rng.shuffle(items)
     for it in items:
         if it == 'd':
             body.append({'d': [rng.choice(['color', 'width', 'margin', 'top', 'z-index']), rng.choice(['red', '1px', '0', 'auto', '2em 3em', 'blue'])]})
         else:
-            body.append(rand_tree(rng, depth + 1, True, maxdepth))
+            body.append(rand_tree(rng, depth + 1, True, maxdepth, mult))
     return {'r': sel, 'b': body}
 
 
